@@ -609,6 +609,21 @@ impl Transform {
         );
         ret
     }
+
+    /// Verification hook: read-only view of the matrix and of the stored inverse
+    #[cfg(geometry3d_verif)]
+    pub fn verif_elements(&self) -> ([Float; 16], [Float; 16]) {
+        (self.elements, self.inv_elements)
+    }
+
+    /// Verification hook: builds a Transform from a matrix and a stored inverse
+    #[cfg(geometry3d_verif)]
+    pub fn verif_from_elements(elements: [Float; 16], inv_elements: [Float; 16]) -> Self {
+        Self {
+            elements,
+            inv_elements,
+        }
+    }
 } // end of Impl Transform
 
 #[cfg(test)]
